@@ -3,7 +3,23 @@
 
 using namespace vf;
 
-static Verdict runCase(const TecmpRecipe& c, Info& info)
+struct Case
+{
+    std::vector<TecmpRecipe> frames;  // decoded one after the other in the same process / thread (hidden conversion state would show)
+    void io(Ar& a)
+    {
+        if (!a.writing && a.peekName() != "frames")
+        {
+            // older replay files hold a single frame
+            frames.assign(1, TecmpRecipe{});
+            frames[0].io(a);
+            return;
+        }
+        a.vec("frames", frames);
+    }
+};
+
+static Verdict runFrame(const TecmpRecipe& c, Info& info)
 {
     Bytes frame = c.build();
     TecmpExpectation x = tecmpReference(frame.data(), frame.size());
@@ -66,7 +82,39 @@ static Verdict runCase(const TecmpRecipe& c, Info& info)
     return Verdict::pass();
 }
 
-static rc::Gen<TecmpRecipe> genCase(int tier)
+static Verdict runCase(const Case& c, Info& info)
+{
+    bool nontrivial = false, sameSerialOtherContent = false;
+    std::map<uint32_t, uint32_t> serialSeeds;
+    for (size_t i = 0; i < c.frames.size(); ++i)
+    {
+        Info one;
+        Verdict v = runFrame(c.frames[i], one);
+        if (!v.ok)
+            return Verdict::fail("frame " + std::to_string(i) + " of " + std::to_string(c.frames.size()) + ": " + v.why);
+        for (const auto& t : one.tags)
+            info.tag(t);
+        for (const auto& kv : one.counters)
+            info.count(kv.first, kv.second);
+        nontrivial = nontrivial || one.nontrivial;
+        const TecmpRecipe& r = c.frames[i];
+        if ((r.kind == 2 || r.kind == 3) && r.useSerial)
+        {
+            auto it = serialSeeds.find(r.serial);
+            if (it != serialSeeds.end() && it->second != r.seed)
+                sameSerialOtherContent = true;
+            serialSeeds[r.serial] = r.seed;
+        }
+    }
+    if (c.frames.size() >= 2)
+        info.tag("history_of_two_or_more_frames");
+    if (sameSerialOtherContent)
+        info.tag("status_with_a_serial_seen_before_but_other_content");
+    info.nontrivial = nontrivial;
+    return Verdict::pass();
+}
+
+static rc::Gen<TecmpRecipe> genFrame(int tier)
 {
     return rc::gen::exec([tier]() {
         TecmpRecipe r;
@@ -160,9 +208,39 @@ static rc::Gen<TecmpRecipe> genCase(int tier)
     });
 }
 
-// deterministic sweep: every truncation offset and the boundary inner lengths of one frame per kind; all message types
-static void enumerate(int tier, const std::function<bool(const TecmpRecipe&)>& emit)
+static rc::Gen<Case> genCase(int tier)
 {
+    return rc::gen::exec([tier]() {
+        Case c;
+        int n = *rc::gen::weightedOneOf<int>({{3, rc::gen::just(1)}, {3, range<int>(2, 4)}, {1, range<int>(2, 8)}});
+        std::vector<uint32_t> serials;
+        for (int i = 0; i < n; ++i)
+        {
+            TecmpRecipe r = *genFrame(tier);
+            if (r.kind == 2 || r.kind == 3)
+            {
+                // status frames: half of them re-use a serial number seen earlier in the case with other contents
+                r.useSerial = 1;
+                if (!serials.empty() && *range<int>(0, 1) == 0)
+                    r.serial = serials[*range<size_t>(0, serials.size() - 1)];
+                else
+                    r.serial = *rc::gen::weightedOneOf<uint32_t>({{1, rc::gen::element<uint32_t>(0, 1, 0xFFFFFFFFu, 23140065u)}, {2, rc::gen::arbitrary<uint32_t>()}});
+                serials.push_back(r.serial);
+            }
+            c.frames.push_back(r);
+        }
+        return c;
+    });
+}
+
+// deterministic sweep: every truncation offset and the boundary inner lengths of one frame per kind; all message types
+static void enumerate(int tier, const std::function<bool(const Case&)>& emitCase)
+{
+    auto emit = [&](const TecmpRecipe& r) {
+        Case c;
+        c.frames.push_back(r);
+        return emitCase(c);
+    };
     std::vector<TecmpRecipe> bases;
     for (int shape = 0; shape < 5; ++shape)
     {
@@ -267,6 +345,24 @@ static void enumerate(int tier, const std::function<bool(const TecmpRecipe&)>& e
                 return;
         }
     }
+    // histories: status messages that repeat a serial number with other contents, interleaved with data messages
+    for (uint32_t k = 0; k < 12; ++k)
+    {
+        Case c;
+        for (uint32_t j = 0; j < 4; ++j)
+        {
+            TecmpRecipe r = bases[(j % 2) ? 3 : (k % 3 == 0 ? 4 : 3)];
+            r.seed = 1000u + k * 10u + j;
+            r.useSerial = 1;
+            r.serial = (j == 2 && k % 2) ? 77u + k : 4242u;
+            r.entries = static_cast<uint16_t>(1 + j);
+            c.frames.push_back(r);
+            if (j == 1)
+                c.frames.push_back(bases[k % 3]);
+        }
+        if (!emitCase(c))
+            return;
+    }
     // bus status sizes around the 12-byte boundaries
     for (uint16_t n = 0; n <= 40; ++n)
         for (size_t trail = 0; trail < 12; trail += (n < 3 ? 1 : 5))
@@ -281,7 +377,7 @@ static void enumerate(int tier, const std::function<bool(const TecmpRecipe&)>& e
 
 int main(int argc, char** argv)
 {
-    Property<TecmpRecipe> prop;
+    Property<Case> prop;
     prop.id = "C15";
     prop.gen = genCase;
     prop.run = runCase;
